@@ -455,7 +455,7 @@ func (env *Env) instantiate(key string, fc *FuncContract, fn *ssa.Function, sig 
 		e.usedTrusted[key] = fc.Trusted
 	}
 	e.usedContracts[key] = true
-	n := &Env{enc: e, vars: vars, st: env.st, old: env.st, res: e.prog.resolver(fc.PkgPath, e.importsFor(fc)), fc: fc, ghost: true, depth: env.depth + 1, bound: env.bound}
+	n := &Env{enc: e, vars: vars, st: env.st, old: env.st, res: e.prog.resolver(fc.PkgPath, e.importsFor(fc)), fc: fc, ghost: env.ghost, depth: env.depth + 1, bound: env.bound}
 	var reqs []string
 	for _, l := range fc.Lets {
 		if err := n.bindLet(l); err != nil {
@@ -489,8 +489,12 @@ func (env *Env) instantiate(key string, fc *FuncContract, fn *ssa.Function, sig 
 		}
 		e.ctx.assert(implies(and(reqs...), g))
 	}
-	for _, v := range vals {
-		e.assumeTypeInv(env.st, v.T, v.Typ, "true")
+	if env.ghost {
+		// (not outside lemmas: a pure function may return a fresh object, and the same application in
+		// the code is then not allocated in the state the specification is evaluated in)
+		for _, v := range vals {
+			e.assumeTypeInv(env.st, v.T, v.Typ, "true")
+		}
 	}
 }
 
